@@ -205,15 +205,17 @@ func RunPortfolio(file string, timeoutS int, only string) SolveResult {
 				ch <- r{s.name, "cancelled", "", 0}
 				return
 			}
-			a := s.args(timeoutS, file)
-			c, cc := context.WithTimeout(ctx, time.Duration(timeoutS+2)*time.Second)
+			// the time limit is on the CPU time the solver consumes (see cpuclock.go); its own wall-clock limit and
+			// the context's are wallSlack times longer and only stop a solver that is starved or stuck
+			a := s.args(timeoutS*wallSlack, file)
+			c, cc := context.WithTimeout(ctx, time.Duration(timeoutS*wallSlack+2)*time.Second)
 			defer cc()
 			cmd := exec.CommandContext(c, a[0], a[1:]...)
 			var out bytes.Buffer
 			cmd.Stdout = &out
 			cmd.Stderr = &out
 			t0 := time.Now()
-			_ = cmd.Run()
+			cpuOut := runWithCPULimit(cmd, float64(timeoutS))
 			secs := time.Since(t0).Seconds()
 			fl := firstLine(out.String())
 			st := "unknown"
@@ -224,7 +226,7 @@ func RunPortfolio(file string, timeoutS int, only string) SolveResult {
 				st = "sat"
 			case ctx.Err() != nil:
 				st = "cancelled"
-			case fl == "timeout" || strings.Contains(fl, "timeout") || strings.Contains(fl, "interrupted") || c.Err() != nil:
+			case cpuOut || fl == "timeout" || strings.Contains(fl, "timeout") || strings.Contains(fl, "interrupted") || c.Err() != nil:
 				st = "timeout"
 			case strings.HasPrefix(fl, "(error") || strings.Contains(fl, "rror"):
 				st = "error"
